@@ -1,6 +1,7 @@
 package main
 
 import (
+	"crypto/tls"
 	"flag"
 	"io"
 	"os"
@@ -20,7 +21,8 @@ type reqSpec struct {
 	H      http.Header
 	Note   string
 	// Shape varies what a handler sees of the request BESIDES method and header fields: 0 = no body; 1 = a one-byte body
-	// with Content-Length 1; 2 = a chunked body (ContentLength -1); 3 = another URL path and query, Host and RemoteAddr.
+	// with Content-Length 1; 2 = a chunked body (ContentLength -1); 3 = another URL path and query, Host and RemoteAddr;
+	// 4 = HTTP/1.0; 5 = HTTP/2; 6 = over TLS.
 	// None of it is covered by Vary, and none of it may matter to the middleware.
 	Shape int
 }
@@ -34,6 +36,13 @@ func (rs reqSpec) build() *http.Request {
 		r.Body, r.ContentLength, r.TransferEncoding = io.NopCloser(strings.NewReader("xyz")), -1, []string{"chunked"}
 	case 3:
 		r.URL.Path, r.URL.RawQuery, r.Host, r.RemoteAddr, r.RequestURI = "/other/path", "q=1&origin=https://evil.example", "other.test:8443", "10.1.2.3:999", "/other/path?q=1"
+	case 4:
+		r.Proto, r.ProtoMajor, r.ProtoMinor = "HTTP/1.0", 1, 0
+	case 5:
+		r.Proto, r.ProtoMajor, r.ProtoMinor = "HTTP/2.0", 2, 0
+	case 6:
+		r.TLS = &tls.ConnectionState{}
+		r.URL.Scheme = "https"
 	}
 	return r
 }
@@ -188,16 +197,61 @@ func shapeProbes(rng *rand.Rand, s Sem) []reqSpec {
 	var out []reqSpec
 	for _, o := range []string{a, other} {
 		for _, acrm := range []string{"GET", "PUT", "NOSUCHMETHOD"} {
-			for shape := 0; shape <= 3; shape++ {
+			for shape := 0; shape <= 6; shape++ {
 				out = append(out, reqSpec{Method: "OPTIONS", H: http.Header{hOrigin: {o}, hACRM: {acrm}}, Shape: shape})
 			}
+			// request header fields that Vary does NOT name (Fetch metadata, content negotiation, credentials, upgrade): two
+			// requests that differ only in them are cache-equivalent
+			for _, extra := range []http.Header{
+				{"Sec-Fetch-Mode": {"cors"}, "Sec-Fetch-Site": {"cross-site"}, "Sec-Fetch-Dest": {"empty"}},
+				{"Sec-Fetch-Mode": {"no-cors"}}, {"Sec-Fetch-Mode": {"navigate"}, "Sec-Fetch-Dest": {"document"}, "Sec-Fetch-User": {"?1"}},
+				{"Sec-Fetch-Mode": {"websocket"}, "Upgrade": {"websocket"}, "Connection": {"Upgrade"}}, {"Sec-Fetch-Mode": {"same-origin"}, "Sec-Fetch-Site": {"same-origin"}},
+				{"Referer": {"https://referer.example/page"}}, {"Content-Type": {"application/json"}}, {"Authorization": {"Bearer x"}}, {"Cookie": {"sid=1"}},
+				{"Accept": {"text/html"}, "Accept-Language": {"fr"}}, {"X-Forwarded-Proto": {"https"}, "X-Forwarded-Host": {"evil.example"}}, {"Host": {"evil.example"}},
+				{"Sec-Purpose": {"prefetch"}}, {"Access-Control-Request-Credentials": {"true"}}, {"Timing-Allow-Origin": {"*"}},
+			} {
+				for _, meth := range []string{"OPTIONS", "GET"} {
+					h := http.Header{hOrigin: {o}}
+					if meth == "OPTIONS" {
+						h[hACRM] = []string{acrm}
+					}
+					for k, v := range extra {
+						h[k] = v
+					}
+					out = append(out, reqSpec{Method: meth, H: h})
+				}
+			}
 		}
-		for shape := 0; shape <= 3; shape++ {
+		for shape := 0; shape <= 6; shape++ {
 			out = append(out, reqSpec{Method: "POST", H: http.Header{hOrigin: {o}}, Shape: shape},
 				reqSpec{Method: "OPTIONS", H: http.Header{hOrigin: {o}}, Shape: shape})
 		}
 	}
 	return out
+}
+
+// scribbleServe serves a sample of the block's requests (unrecorded) through a handler that overwrites IN PLACE every element
+// of every request- and response-header slice it can reach: what the middleware put there must not be storage it still uses.
+func scribbleServe(m *cors.Middleware, reqs []reqSpec, dbg bool) {
+	defer func() { recover() }() // panics are C17's business
+	words := scribbleWords
+	n := 0
+	scribbler := http.HandlerFunc(func(w http.ResponseWriter, r *http.Request) {
+		n++
+		scribbleHeader(w.Header(), words[n%len(words)])
+		scribbleHeader(r.Header, words[(n+1)%len(words)])
+		for _, v := range w.Header() { // ... and appends to an element, the way a handler "adds one more value"
+			for i := range v {
+				v[i] += ",X-Scribbled"
+			}
+		}
+		w.WriteHeader(200)
+	})
+	step := len(reqs)/12 + 1
+	for i := 0; i < len(reqs); i += step {
+		rs := reqs[i]
+		handlerFor(m, scribbler).ServeHTTP(newRec(), reqSpec{Method: rs.Method, H: cloneHeader(rs.H), Shape: rs.Shape}.build())
+	}
 }
 
 // historyProbes: requests that differ from an EARLIER request of the same block only in what a per-middleware memo might
@@ -825,6 +879,7 @@ func cmdServe(args []string) {
 		for _, dbg := range []bool{false, true} {
 			m.SetDebug(dbg)
 			noise(m)
+			scribbleServe(m, reqs, dbg)
 			for vi, vr := range variants {
 				t.emit(map[string]any{"ev": "Block", "dbg": dbg, "variant": vi})
 				for _, rs := range reqs {
